@@ -27,14 +27,30 @@ type Result struct {
 
 type Solver struct {
 	Name string
-	Args func(file string, timeout int) []string
+	Args func(file string, timeout int, seed int) []string
 }
 
 var Solvers = []Solver{
-	{"z3-new", func(f string, t int) []string { return []string{"z3-new", fmt.Sprintf("-T:%d", t), f} }},
-	{"z3", func(f string, t int) []string { return []string{"z3", fmt.Sprintf("-T:%d", t), f} }},
-	{"cvc5", func(f string, t int) []string {
-		return []string{"cvc5", fmt.Sprintf("--tlimit=%d", t*1000), "--strings-exp", "--full-saturate-quant", f}
+	{"z3-new", func(f string, t int, seed int) []string {
+		a := []string{"z3-new", fmt.Sprintf("-T:%d", t)}
+		if seed != 0 {
+			a = append(a, fmt.Sprintf("smt.random_seed=%d", seed), fmt.Sprintf("sat.random_seed=%d", seed))
+		}
+		return append(a, f)
+	}},
+	{"z3", func(f string, t int, seed int) []string {
+		a := []string{"z3", fmt.Sprintf("-T:%d", t)}
+		if seed != 0 {
+			a = append(a, fmt.Sprintf("smt.random_seed=%d", seed), fmt.Sprintf("sat.random_seed=%d", seed))
+		}
+		return append(a, f)
+	}},
+	{"cvc5", func(f string, t int, seed int) []string {
+		a := []string{"cvc5", fmt.Sprintf("--tlimit=%d", t*1000), "--strings-exp", "--full-saturate-quant"}
+		if seed != 0 {
+			a = append(a, fmt.Sprintf("--seed=%d", seed))
+		}
+		return append(a, f)
 	}},
 }
 
@@ -47,8 +63,8 @@ type SolveOpts struct {
 	Keep     bool
 }
 
-func runSolver(ctx context.Context, s Solver, file string, timeout int) (string, float64, string) {
-	args := s.Args(file, timeout)
+func runSolver(ctx context.Context, s Solver, file string, timeout int, seed int) (string, float64, string) {
+	args := s.Args(file, timeout, seed)
 	start := time.Now()
 	cctx, cancel := context.WithTimeout(ctx, time.Duration(timeout+2)*time.Second)
 	defer cancel()
@@ -75,9 +91,6 @@ func runSolver(ctx context.Context, s Solver, file string, timeout int) (string,
 // Discharge decides one obligation with the solver portfolio.
 func Discharge(o *Obligation, opts SolveOpts) *Result {
 	q := "(set-option :produce-models true)\n(set-logic ALL)\n" + o.Query(false)
-	if opts.Seed != 0 {
-		q = fmt.Sprintf("(set-option :random-seed %d)\n", opts.Seed%1000000) + q
-	}
 	file := filepath.Join(opts.Dir, sanitize(o.Name)+".smt2")
 	if len(file) > 200 {
 		file = filepath.Join(opts.Dir, fmt.Sprintf("%s_%x.smt2", sanitize(o.Name)[:80], hashStr(o.Name)))
@@ -100,7 +113,7 @@ func Discharge(o *Obligation, opts SolveOpts) *Result {
 	}
 	for _, s := range Solvers {
 		go func(s Solver) {
-			a, t, out := runSolver(ctx, s, file, timeout)
+			a, t, out := runSolver(ctx, s, file, timeout, opts.Seed)
 			ch <- ans{s.Name, a, t, out}
 		}(s)
 	}
